@@ -58,6 +58,13 @@ def _roots(a):
         elif z3.is_app(x) and x.decl().kind() == z3.Z3_OP_ITE:
             todo.append(x.arg(1))
             todo.append(x.arg(2))
+        elif z3.is_app(x) and x.decl().kind() == z3.Z3_OP_DT_ACCESSOR and z3.is_app(x.arg(0)) and x.arg(0).decl().kind() == z3.Z3_OP_SELECT \
+                and z3.is_app(x.arg(0).arg(0)) and x.arg(0).arg(0).decl().kind() == z3.Z3_OP_STORE:
+            # field(Store(A, j, V)[i]) is field(V) or field(A[i]): an array-valued field of an element of an updated list
+            sel = x.arg(0)
+            st, i = sel.arg(0), sel.arg(1)
+            todo.append(z3.simplify(x.decl()(st.arg(2))))
+            todo.append(x.decl()(z3.Select(st.arg(0), i)))
         else:
             roots.append(x)
     return roots, idx
@@ -163,7 +170,7 @@ class Instantiator:
     def find(self, r):
         k = r.get_id()
         self.keep.setdefault(k, r)
-        if self.share and z3.is_app(r) and r.num_args() > 0 and r.decl().kind() == z3.Z3_OP_UNINTERPRETED:
+        if self.share and z3.is_app(r) and r.num_args() > 0 and r.decl().kind() in (z3.Z3_OP_UNINTERPRETED, z3.Z3_OP_DT_ACCESSOR):
             # second pass: arrays given by the same function symbol (kids(m), pkg_clauses(t), ...) share their read sets - their arguments
             # may be equal without being syntactically equal (a skolem index known to be 0)
             fk = "fn:" + r.decl().name()
